@@ -42,6 +42,23 @@ func C15(c *Ctx) int {
 		}
 		hs = append(hs, h)
 	}
+	kc := 2
+	if c.Thorough() {
+		kc = 3
+	}
+	for k := 1; k <= kc; k++ {
+		hs = append(hs, Harness{Name: fmt.Sprintf("ast.ClassRanges[k=%d]", k), Pkg: "internal/ast", Func: "H_ClassRanges", Params: map[string]int{"k": k},
+			Reach: []string{"negated", "plain"}, Bounds: fmt.Sprintf("[..] / ~[..] with %d arbitrary items, arbitrary probe code point", k)})
+	}
+	diffs := [][2]int{{1, 1}}
+	if c.Thorough() {
+		diffs = append(diffs, [2]int{2, 1}, [2]int{1, 2})
+	}
+	for _, sh := range diffs {
+		hs = append(hs, Harness{Name: fmt.Sprintf("ast.ClassDifference[%d-%d]", sh[0], sh[1]), Pkg: "internal/ast", Func: "H_ClassDifference",
+			Params: map[string]int{"ka": sh[0], "kb": sh[1]}, Reach: []string{"difference"},
+			Bounds: fmt.Sprintf("class of %d items minus class of %d items, each side possibly negated", sh[0], sh[1])})
+	}
 	for _, h := range hs {
 		r, err := c.RunHarness(prog, h)
 		if err != nil {
